@@ -74,42 +74,82 @@ Definition wrap_score_u8_avx2_pipelined (p : SP) : res kernel_run :=
 (* the stray access of the last scored row *)
 Definition pipelined_stray (p : SP) : access := rd B_SRC ((pb p - 1 + pM p) * psst p) 32 32.
 
-(* ---------- histories with the capacity of the sequence matrix ---------- *)
+(* ---------- histories with the allocations of the matrices ----------
+   The state of FpHistory plus the capacity of the three matrices a history resizes: the sequence matrix, the f32 and
+   the u8 score matrix (the scoring matrices are built once per motif and never resized: their allocation is at
+   least their rows).  Every event carries, next to the extents of the OWNED rows (FpHistory), the extents of the
+   ALLOCATIONS as they are when the kernel runs. *)
 
-Record cstate := mkC { c_h : hstate; c_scap : Z }.
+Record cstate := mkC { c_h : hstate; c_scap : Z; c_fcap : Z; c_ucap : Z }.
 
 Inductive cop :=
 | CBase (o : hop) (newcap : Z)     (* an op of FpHistory; newcap: the capacity std chooses IF the op reallocates *)
 | CCloneSeq                        (* striped = striped.clone() *)
+| CCloneScores                     (* fs = fs.clone(); us = us.clone() *)
 | CNewSeq (rows L newcap : Z).     (* StripedSequence::new(DenseMatrix::new(rows), L): Err when rows * 32 < L *)
+
+(* an entered kernel with the allocated bytes of its buffers at that moment *)
+Record cev := mkCE { ce_ev : fp_event; ce_alloc : nat -> Z }.
 
 (* the extent of the sequence matrix (B_SRC of a scoring event) becomes its allocation *)
 Definition widen_seq (scap sst : Z) (e : fp_event) : fp_event :=
   mkEv (fun b => if Nat.eqb b B_SRC then scap * sst else ev_ext e b) (ev_al e) (ev_accs e).
 
+(* allocation of a scoring event: sequence matrix scap rows, score matrix dcap rows of 32 elements of es bytes *)
+Definition alloc_of_score (scap dcap es : Z) (e : fp_event) (b : nat) : Z :=
+  if Nat.eqb b B_SRC then scap * 32 else if Nat.eqb b B_DST then dcap * 32 * es else ev_ext e b.
+(* allocation of a max / argmax event: the score matrix read has cap rows *)
+Definition alloc_of_max (cap es : Z) (e : fp_event) (b : nat) : Z :=
+  if Nat.eqb b B_SRC then cap * 32 * es else ev_ext e b.
+(* allocation of a stripe / sample event: the destination has scap rows *)
+Definition alloc_of_stripe (scap : Z) (e : fp_event) (b : nat) : Z :=
+  if Nat.eqb b B_DST then scap * 32 else ev_ext e b.
+
+(* the capacity after a matrix went from rows0 (capacity cap) to rows1 rows by `resize` *)
+Definition cap_after (rows0 cap rows1 newcap : Z) : Z := cb_cap (cb_resize (mkCB rows0 cap) rows1 newcap).
+
 Section Cap.
   Variables K pstF pstU : Z.
 
-  Definition cstep (s : cstate) (o : cop) : cstate * list fp_event :=
+  Definition cstep (s : cstate) (o : cop) : cstate * list cev :=
     match o with
-    | CCloneSeq => (mkC (c_h s) (hSR (c_h s)), [])
+    | CCloneSeq => (mkC (c_h s) (hSR (c_h s)) (c_fcap s) (c_ucap s), [])
+    | CCloneScores => (mkC (c_h s) (c_scap s) (hFR (c_h s)) (hUR (c_h s)), [])
     | CNewSeq rows L newcap =>
         if rows * 32 <? L then (s, [])
-        else (mkC (set_seq (c_h s) L rows 0) (Z.max rows newcap), [])
+        else (mkC (set_seq (c_h s) L rows 0) (Z.max rows newcap) (c_fcap s) (c_ucap s), [])
     | CBase o newcap =>
-        let '(h', evs) := hstep K pstF pstU (c_h s) o in
+        let h := c_h s in
+        let '(h', evs) := hstep K pstF pstU h o in
         match o with
         (* a (re)striped or sampled sequence: whatever capacity the constructor / `reserve` left *)
-        | HStripe _ | HSample _ => (mkC h' (Z.max (hSR h') newcap), evs)
+        | HStripe _ | HSample _ =>
+            let scap' := Z.max (hSR h') newcap in
+            (mkC h' scap' (c_fcap s) (c_ucap s), map (fun e => mkCE e (alloc_of_stripe scap' e)) evs)
         (* configure_wrap: `data.resize(rows + m - wrap)` *)
         | HConfigure _ =>
-            (mkC h' (cb_cap (cb_resize (mkCB (hSR (c_h s)) (c_scap s)) (hSR h') newcap)), evs)
-        | HScoreF32 _ _ _ | HScoreU8 _ _ _ => (mkC h' (c_scap s), map (widen_seq (c_scap s) 32) evs)
-        | _ => (mkC h' (c_scap s), evs)
+            (mkC h' (cap_after (hSR h) (c_scap s) (hSR h') newcap) (c_fcap s) (c_ucap s),
+             map (fun e => mkCE e (ev_ext e)) evs)
+        (* scoring: `scores.resize(rows.len(), ..)` (or resize(0, 0)), then the kernel *)
+        | HScoreF32 _ _ _ =>
+            let fcap' := cap_after (hFR h) (c_fcap s) (hFR h') newcap in
+            (mkC h' (c_scap s) fcap' (c_ucap s), map (fun e => mkCE e (alloc_of_score (c_scap s) fcap' 4 e)) evs)
+        | HScoreU8 _ _ _ =>
+            let ucap' := cap_after (hUR h) (c_ucap s) (hUR h') newcap in
+            (mkC h' (c_scap s) (c_fcap s) ucap', map (fun e => mkCE e (alloc_of_score (c_scap s) ucap' 1 e)) evs)
+        (* StripedScores::resize on both score buffers *)
+        | HResize _ _ =>
+            (mkC h' (c_scap s) (cap_after (hFR h) (c_fcap s) (hFR h') newcap) (cap_after (hUR h) (c_ucap s) (hUR h') newcap),
+             map (fun e => mkCE e (ev_ext e)) evs)
+        | HArgmaxF32 _ | HMaxF32 _ =>
+            (mkC h' (c_scap s) (c_fcap s) (c_ucap s), map (fun e => mkCE e (alloc_of_max (c_fcap s) 4 e)) evs)
+        | HArgmaxU8 _ | HMaxU8 _ =>
+            (mkC h' (c_scap s) (c_fcap s) (c_ucap s), map (fun e => mkCE e (alloc_of_max (c_ucap s) 1 e)) evs)
+        | _ => (mkC h' (c_scap s) (c_fcap s) (c_ucap s), map (fun e => mkCE e (ev_ext e)) evs)
         end
     end.
 
-  Fixpoint ctrace (s : cstate) (ops : list cop) : list fp_event :=
+  Fixpoint ctrace (s : cstate) (ops : list cop) : list cev :=
     match ops with
     | [] => []
     | o :: r => let '(s', ev) := cstep s o in ev ++ ctrace s' r
@@ -120,6 +160,13 @@ Section Cap.
     | [] => s
     | o :: r => cfinal (fst (cstep s o)) r
     end.
+
+  (* every state the history goes through, the first one included *)
+  Fixpoint cstates (s : cstate) (ops : list cop) : list cstate :=
+    match ops with
+    | [] => [s]
+    | o :: r => s :: cstates (fst (cstep s o)) r
+    end.
 End Cap.
 
-Definition c0 : cstate := mkC h0 0.
+Definition c0 : cstate := mkC h0 0 0 0.
